@@ -288,13 +288,13 @@ def gen_trees(ctx):
         elif r < 0.97:
             # `a or b` over one kind: the fallback is a random tree or a failing constant, bare or nested in a list / a further `or`
             k = rng.choice("IIBYF")
-            pool = [t for t in full if t[0] == k and (k != "I" or nc.ival(t) <= nc.I32_MAX)]
+            pool = [t for t in full if t[0] == k and (k == "F" or nc.ival(t) <= {"I": nc.I32_MAX, "B": nc.I128_MAX, "Y": 255}[k])]
             ops = nc.ARITH if k == "F" else FOLDED_OPS
 
             def same_kind(depth):
                 if depth == 0 or rng.random() < 0.3:
                     return L(rng.choice(pool))
-                if rng.random() < 0.15:
+                if rng.random() < 0.15 and k != "Y":         # a byte has no negation: a type error, not a failing constant
                     return ("neg", same_kind(depth - 1))
                 return ("bin", rng.choice(ops), same_kind(depth - 1), same_kind(depth - 1))
             fb = rng.choice(failing_constants()[k]) if rng.random() < 0.5 else same_kind(2)
@@ -475,6 +475,10 @@ def run(ctx):
                         "how": "MSCRIPT_VERIF_TYPED_PRINT=1 mscript run m.ms -q   (each program in an empty directory)"})
             continue
         if m is None:
+            continue
+        if has_failing_fallback(e) and fails(folded) and fails(unfolded):
+            # the models see the primary only ((e or v) = e): a fallback that is refused for what it IS (not for what it
+            # evaluates to) makes both renderings fail alike, which is all the property asks
             continue
         # correspondence: the folder model and the run-time model against the two observations
         exp_f = {"REJECT": "REJECT", "RTFAIL": "ERR"}.get(m["fold"], m["fold"])
